@@ -107,10 +107,10 @@ func init() {
 		})
 	clusterCheck("C02",
 		func() []Unit {
-			return scUnits(1, "write3", "write3-pipe", "crash3", "snap3", "snap3-pipe", "snap3-trail1", "snap3-mono", "stale-suffix", "majority-restart", "member", "rcl3-snap", "autosnap3", "batch-mix", "batch-mix-cfgstore", "fig8", "fig8-batch1", "fig8-paper")
+			return scUnits(1, "write3", "write3-pipe", "crash3", "snap3", "snap3-pipe", "snap3-trail1", "snap3-mono", "stale-suffix", "majority-restart", "member", "rcl3-snap", "autosnap3", "batch-mix", "batch-mix-cfgstore", "fig8", "fig8-batch1", "fig8-paper", "snap3-storefail")
 		},
 		func() []Unit {
-			return scUnits(2, "write3", "write3-pipe", "crash3", "snap3", "snap3-pipe", "snap3-trail1", "snap3-mono", "stale-suffix", "majority-restart", "member", "fig8", "fig8-batch1", "fig8-paper", "transfer", "batch-mix", "batch-lag", "autosnap3")
+			return scUnits(2, "write3", "write3-pipe", "crash3", "snap3", "snap3-pipe", "snap3-trail1", "snap3-mono", "stale-suffix", "majority-restart", "member", "fig8", "fig8-batch1", "fig8-paper", "transfer", "batch-mix", "batch-lag", "autosnap3", "snap3-storefail")
 		})
 	clusterCheck("C03",
 		func() []Unit {
@@ -156,7 +156,7 @@ func init() {
 		})
 	clusterCheck("C11",
 		func() []Unit {
-			return append([]Unit{{Name: "enum-compaction", Enum: enumC11}}, scUnits(1, "snap3", "snap3-trail1", "snap3-mono", "stale-suffix", "stale-suffix-trail", "member", "snap-member-slowfsm", "autosnap3", "rcl3-snap", "rcl1-many", "rcl1-after", "rcl3-after", "snap3-dup-is", "snap3-trail1-dup-is")...)
+			return append([]Unit{{Name: "enum-compaction", Enum: enumC11}}, scUnits(1, "snap3", "snap3-trail1", "snap3-mono", "stale-suffix", "stale-suffix-trail", "member", "snap-member-slowfsm", "autosnap3", "rcl3-snap", "rcl1-many", "rcl1-after", "rcl3-after", "snap3-dup-is", "snap3-trail1-dup-is", "snap3-storefail")...)
 		},
 		func() []Unit {
 			return append([]Unit{{Name: "enum-compaction", Enum: enumC11}}, scUnits(2, "snap3", "snap3-trail1", "snap3-mono", "stale-suffix", "stale-suffix-trail", "member", "snap-member-slowfsm", "autosnap3", "crash3", "rcl3-snap", "rcl1-many", "rcl1-after", "rcl3-after", "snap3-dup-is", "snap3-trail1-dup-is")...)
